@@ -59,14 +59,18 @@ class BaseValidator(object):
         self._expected_item_count = len(self._cid.field_formats)
         self._location = None
         self._is_closed = False
+        self._skip_checks_at_end = False
 
     def __enter__(self):
         return self
 
     def __exit__(self, exc_type, exc_val, exc_tb):
         """
-        Simply call :py:meth:`~.close()`.
+        Call :py:meth:`~.close()`. In case an error already is on its way,
+        skip the checks at the end because they would hide it.
         """
+        if exc_type is not None:
+            self._skip_checks_at_end = True
         self.close()
 
     @property
@@ -153,8 +157,9 @@ class BaseValidator(object):
         """
         if not self._is_closed:
             try:
-                for check_name in self.cid.check_names:
-                    self.cid.check_map[check_name].check_at_end(self.location)
+                if not self._skip_checks_at_end:
+                    for check_name in self.cid.check_names:
+                        self.cid.check_map[check_name].check_at_end(self.location)
             finally:
                 for check in self.cid.check_map.values():
                     check.cleanup()
